@@ -192,7 +192,11 @@ C02Scen(v, strict, b, enc, dform, timing, nat, other, sackx) ==
     LET mn == 1  mx == 5  dt == 4
         rdelay(t) == IF timing = "late" THEN LateDelay(v, mn, mx, t) ELSE IF timing = "eager" THEN 0 ELSE 2000 + 900 * t
         te(t) == [form |-> "te", from |-> Router(v, t), delay_us |-> rdelay(t), tag |-> "g"] @@ enc
-                 @@ (IF nat THEN [mods_s |-> NatMods, mods |-> [q_sport |-> 1024]] ELSE [mods_s |-> NoMods])
+                 \* source NAT on the way: address and port rewritten, the port only (masquerading on the host itself), the address only
+                 @@ (CASE nat = "all" -> [mods_s |-> NatMods, mods |-> [q_sport |-> 1024]]
+                       [] nat = "port" -> [mods_s |-> NoMods, mods |-> [q_sport |-> 1024]]
+                       [] nat = "addr" -> [mods_s |-> NatMods]
+                       [] OTHER -> [mods_s |-> NoMods])
         dst(t) == [form |-> dform, delay_us |-> rdelay(t), tag |-> "g"] @@ (IF dform = "sack" THEN [extra |-> sackx[1], desc |-> sackx[2]] ELSE [quote |-> "28"])
                  \* (direct replies - echo reply, SYN-ACK, RST, duplicate ACK - carry the outer IP options of the combination too)
                  @@ (IF dform \in {"du_port", "du_host", "du_admin"} THEN enc ELSE [qttl |-> 0, ipopt |-> enc.ipopt])
@@ -205,9 +209,9 @@ C02Scen(v, strict, b, enc, dform, timing, nat, other, sackx) ==
     IN Common(v, strict, b, mn, mx) @@
        [id |-> "C02/" \o v \o "/" \o (IF strict THEN "strict" ELSE "relaxed") \o "/" \o b.name \o "/" \o enc.quote \o "-" \o ToString(enc.ipopt)
                \o "-" \o ToString(enc.qttl) \o "-" \o enc.qcsum \o "-" \o ToString(enc.qtos) \o "/" \o dform \o "/" \o timing
-               \o (IF nat THEN "/nat" ELSE "") \o "/" \o other \o "/" \o ToString(Len(sackx[1])) \o (IF sackx[2] THEN "d" ELSE "a"),
+               \o (IF nat # "none" THEN "/nat-" \o nat ELSE "") \o "/" \o other \o "/" \o ToString(Len(sackx[1])) \o (IF sackx[2] THEN "d" ELSE "a"),
         label |-> v \o "/" \o (IF strict THEN "strict" ELSE "relaxed") \o "/" \o enc.quote \o "/opt" \o ToString(enc.ipopt) \o "/" \o dform \o "/" \o timing
-                  \o (IF nat THEN "/nat" ELSE "") \o "/" \o other,
+                  \o (IF nat = "all" THEN "/nat" ELSE IF nat # "none" THEN "/nat-" \o nat ELSE "") \o "/" \o other,
         eager |-> (timing = "eager"), drain |-> TRUE,
         path |-> PathOf([t \in mn..mx |-> IF t >= dt THEN <<IF other = "destswap" /\ timing = "early" THEN [dst(t) EXCEPT !.delay_us = 90000 - 15000 * t] ELSE dst(t)>> ELSE hop(t)])]
 
@@ -215,21 +219,21 @@ SackExtras == <<<<<<>>, FALSE>>, <<<<5>>, FALSE>>, <<<<5>>, TRUE>>>>
 DestFormSeq(v) == SetToSeq(DestForms(v))
 \* the parameter space of the catalogue; dependent choices are made by index so that the space is a plain product
 C02Params == [v : Variants, s : BOOLEAN, b : Bases, enc : Encs, dfi : 1..3, tm : {"early", "late", "eager"},
-              ot : {"all", "loss", "dup", "reorder", "slowhop", "destswap"}, sxi : 1..3, nat : BOOLEAN]
+              ot : {"all", "loss", "dup", "reorder", "slowhop", "destswap"}, sxi : 1..3, nat : {"none", "all", "port", "addr"}]
 C02Of(p) ==
     LET v == p.v
         s == IF HasStrict(v) THEN p.s ELSE TRUE
         dfs == DestFormSeq(v)
         df == dfs[((p.dfi - 1) % Len(dfs)) + 1]
-        nat == p.nat /\ ~s /\ HasStrict(v)
+        nat == IF ~s /\ HasStrict(v) THEN p.nat ELSE "none"
         sx == IF v = "sack" THEN SackExtras[p.sxi] ELSE SackExtras[1]
-    IN C02Scen(v, s, p.b, p.enc, df, IF nat THEN "early" ELSE p.tm, nat, IF nat THEN "all" ELSE p.ot, sx)
+    IN C02Scen(v, s, p.b, p.enc, df, IF nat # "none" THEN "early" ELSE p.tm, nat, IF nat # "none" THEN "all" ELSE p.ot, sx)
 \* a fixed core (plain encoding, every variant/form/timing/strictness) plus a seeded sample of the full catalogue product
 C02Core == { [v |-> v, s |-> s, b |-> BaseMid, enc |-> EncPlain, dfi |-> i, tm |-> tm, ot |-> "all", sxi |-> x, nat |-> n] :
-               v \in Variants, s \in BOOLEAN, i \in 1..3, tm \in {"early", "late", "eager"}, x \in 1..3, n \in BOOLEAN }
-           \cup { [v |-> "sack", s |-> s, b |-> b, enc |-> EncPlain, dfi |-> 1, tm |-> tm, ot |-> "all", sxi |-> x, nat |-> FALSE] :
+               v \in Variants, s \in BOOLEAN, i \in 1..3, tm \in {"early", "late", "eager"}, x \in 1..3, n \in {"none", "all", "port", "addr"} }
+           \cup { [v |-> "sack", s |-> s, b |-> b, enc |-> EncPlain, dfi |-> 1, tm |-> tm, ot |-> "all", sxi |-> x, nat |-> "none"] :
                     s \in BOOLEAN, b \in Bases, tm \in {"early", "eager"}, x \in 1..3 }
-           \cup { [v |-> v, s |-> TRUE, b |-> BaseMid, enc |-> EncPlain, dfi |-> i, tm |-> "early", ot |-> ot, sxi |-> 1, nat |-> FALSE] :
+           \cup { [v |-> v, s |-> TRUE, b |-> BaseMid, enc |-> EncPlain, dfi |-> i, tm |-> "early", ot |-> ot, sxi |-> 1, nat |-> "none"] :
                     v \in Variants, i \in 1..3, ot \in {"slowhop", "destswap"} }
 \* serial engine, listening time that is not a multiple of the poll interval: a timeout SHORTER than one poll (80 ms), and an answer
 \* to the last probe in the last, partial poll of a 350 ms timeout
@@ -387,8 +391,16 @@ C08SackStream(us) ==
     C08Base("sack", BaseMid) @@ [id |-> "C08/sack/synack_stream/" \o ToString(us), label |-> "sack/synack_stream", path |-> PathOf([t \in 1..4 |-> <<>>]),
                                  no_synack |-> TRUE, flood_n |-> 1, flood_us |-> us, flood_kind |-> "synack_other", flood_at_open |-> TRUE,
                                  t_local |-> "10.77.0.1", t_target |-> "198.51.100.9", t_dport |-> 33434]
+\* SACK: the target's application keeps ITS half of the handshake connection open after the run (it never reads, never closes):
+\* the run returns within its bound all the same. REAL clock: deadlines on a kernel socket are real time.
+C08SackPeerOpen ==
+    [C08Base("sack", BaseMid) EXCEPT !.timeout_ms = 300] @@
+    [id |-> "C08/sack/peer_keeps_connection_open", label |-> "sack/peer_keeps_connection_open", realclock |-> TRUE,
+     \* the FIN budget of the deadline is large (production: 500 s): it is not part of the bound - nothing may wait for the peer's FIN
+     extra |-> [fin_timeout_ms |-> 6000],
+     path |-> Background("sack", 1, 4, 3, {})]
 C08All(u) ==
-    { C08Silence(v) : v \in Variants }
+    { C08SackPeerOpen } \cup { C08Silence(v) : v \in Variants }
     \cup { C08SackStream(us) : us \in {100000, 333000, 499000} }
     \cup { C08Flood(v, k, n) : v \in Variants, k \in {"foreign_te", "junk", "foreign_tcp"}, n \in {3, 40} }
     \cup { C08Sack(m) : m \in {"no_synack", "late_synack", "no_sackperm"} }
@@ -513,6 +525,7 @@ C14Scen(v, cls, dupl) ==
                    [] cls = "tie" -> (t - mn) * dly           \* at the very instant probe t is being sent
                    [] cls = "after" -> (t - mn) * dly + 1500
                    [] cls = "nexttie" -> (t - mn + 1) * dly  \* at the very instant the NEXT probe is being sent
+                   [] cls = "afternext" -> (t - mn + 1) * dly + 2500  \* shortly after the NEXT probe was sent (or failed to be)
                    [] OTHER -> IF t % 2 = 0 THEN t ELSE (t - mn) * dly + 700
         form(t) == IF t = mx THEN DestForm1(v) ELSE "te"
     IN [id |-> "C14/" \o v \o "/" \o cls \o (IF dupl THEN "/dup" ELSE ""), label |-> v \o "/" \o cls \o (IF dupl THEN "/dup" ELSE ""),
@@ -530,7 +543,18 @@ C14SackTS(cls, dupl) ==
     LET base == C14Scen("sack", cls, dupl) IN
     [base EXCEPT !.id = @ \o "/all_sack_ts", !.label = @ \o "/all_sack_ts", !.sack_ts = TRUE,
                  !.inject = [k \in DOMAIN base.inject |-> [base.inject[k] EXCEPT !.form = "sack", !.from = "TARGET"]]]
-C14All(u) == { C14SackTS(c, d) : c \in {"tie", "after", "nexttie"}, d \in BOOLEAN } \cup { C14Scen(v, "nexttie", d) : v \in ParVariants, d \in BOOLEAN } \cup { C14Scen(v, c, d) : v \in ParVariants, c \in {"early", "tie", "after", "mixed"}, d \in BOOLEAN }
+\* the same schedule classes while the k-th send FAILS (the sender's error path runs while the receiver handles a reply), and with
+\* trace-level logging switched on (the logging closures run on the sending and on the receiving goroutine)
+C14WriteFails(v, cls, k) ==
+    LET base == C14Scen(v, cls, FALSE) IN
+    [base EXCEPT !.id = @ \o "/write_fails/" \o ToString(k), !.label = @ \o "/write_fails"] @@ [faults |-> <<[op |-> "write", k |-> k, class |-> "eperm"]>>]
+C14Verbose(v, cls, dupl) ==
+    LET base == C14Scen(v, cls, dupl) IN
+    [base EXCEPT !.id = @ \o "/trace_logging", !.label = @ \o "/trace_logging"] @@ [extra |-> [verbose |-> TRUE]]
+C14All(u) == { C14WriteFails(v, c, k) : v \in ParVariants, c \in {"tie", "after", "nexttie", "afternext"}, k \in {2, 3, 5} }
+             \cup { C14Scen(v, "afternext", d) : v \in ParVariants, d \in BOOLEAN }
+             \cup { C14Verbose(v, c, d) : v \in ParVariants, c \in {"tie", "after", "nexttie"}, d \in BOOLEAN }
+             \cup { C14SackTS(c, d) : c \in {"tie", "after", "nexttie"}, d \in BOOLEAN } \cup { C14Scen(v, "nexttie", d) : v \in ParVariants, d \in BOOLEAN } \cup { C14Scen(v, c, d) : v \in ParVariants, c \in {"early", "tie", "after", "mixed"}, d \in BOOLEAN }
 
 ---------------------------------------------------------------------------
 (***************************************************************************)
